@@ -266,7 +266,7 @@ func rawList(l capnp.List) string {
 		}
 		return sx(it...)
 	case comp:
-		it := []string{"l"}
+		it := []string{"C"}
 		for i := 0; i < n; i++ {
 			it = append(it, rawStruct(l.Struct(i)))
 		}
